@@ -6,6 +6,7 @@ package main
 
 import (
 	"fmt"
+	"regexp"
 	"sort"
 	"strings"
 
@@ -125,6 +126,44 @@ func workC15(req *Request, set []byte) {
 		}
 		o.Term = t
 	})
+	// the export loses nothing of the reflected schema objects but Kind / WellKnownTypeName of scalars:
+	// the reader's own objects, dumped member by member, against the dump of their ToJ5Root()
+	step(req, "exportloss", func(o *Obs) {
+		files, err := descgen.LinkBytes(set)
+		if err != nil {
+			return
+		}
+		ss, err := j5schema.SchemaSetFromFiles(files, func(f protoreflect.FileDescriptor) bool {
+			for _, p := range req.Packages {
+				if strings.HasPrefix(string(f.Package()), p) {
+					return true
+				}
+			}
+			return false
+		})
+		if err != nil {
+			o.Class, o.Msg = "err", short(err.Error())
+			return
+		}
+		for _, pkg := range ss.Packages {
+			for name, ref := range pkg.Schemas {
+				if ref.To == nil {
+					continue
+				}
+				a, err1 := descgen.InternalRootTerm(ref.To)
+				b, err2 := descgen.RootTerm(ref.To.ToJ5Root())
+				if err1 != nil || err2 != nil {
+					o.Viol = append(o.Viol, fmt.Sprintf("dump: %s.%s: %v %v", pkg.Name, name, err1, err2))
+					continue
+				}
+				a = reScalarKW.ReplaceAllString(a, "(FScalar None")
+				if a != b {
+					o.Viol = append(o.Viol, fmt.Sprintf("exportloss: %s.%s reflected=%s exported=%s", pkg.Name, name, short(firstDiff(a, b)), short(firstDiff(b, a))))
+				}
+			}
+		}
+		sort.Strings(o.Viol)
+	})
 	if req.skip("export") || api == nil {
 		return
 	}
@@ -223,6 +262,25 @@ func workC15(req *Request, set []byte) {
 		sort.Strings(o.Viol)
 	})
 	_ = protoreflect.FullName("")
+}
+
+var reScalarKW = regexp.MustCompile(`\(FScalar \(Some \([A-Za-z0-9]+, \[[0-9;]*\]\)\)`)
+
+// firstDiff returns a window of a around the first position where a and b differ.
+func firstDiff(a, b string) string {
+	i := 0
+	for i < len(a) && i < len(b) && a[i] == b[i] {
+		i++
+	}
+	lo := i - 60
+	if lo < 0 {
+		lo = 0
+	}
+	hi := i + 120
+	if hi > len(a) {
+		hi = len(a)
+	}
+	return a[lo:hi]
 }
 
 func uniq(xs []string) []string {
